@@ -4,7 +4,10 @@ import LentilVerif.Lemmas.EnergyPupil
 import LentilVerif.Lemmas.FourierWiring   -- the dft2 model = the wiring regenerated from fourier.py (theorem: C01.dft2_follows_source_wiring)
 /-! # C05 — propagation conserves energy
 
-Property theorems only. Model: `Model/Energy.lean` over `Model/Fourier.lean`, instantiated at `K = ℂ`, `R = ℝ`. -/
+Property theorems only, at `K = ℂ`, `R = ℝ`. The propagators are the C02 model (`propagateField`, window kernel regenerated) and the
+C09 model (`propagateFft`); `Model/Energy.lean` adds `intensity`, `arrSum`, `normalizePower` (factor regenerated) and the reference
+power `embedAll`. No theorem here is about a hand-written propagator of C05's own; "the FFT path is the centred unitary DFT" is
+C09 `fft_path_is_unitary_dft_complex`, used through `fft_eq_propagate_dft`. -/
 namespace Lentil.C05
 open Lentil Finset
 
